@@ -101,6 +101,15 @@ CHECKS = {
             'nested concurrent runs, clock plans; clean-room reference run of the same op. Concurrent runs finer than one '
             'nested complete run are not simulated.',
             TECH + ': seeded histories with fault injection, footprint and clean-room differential oracles', '5 C19'),
+    'C20': ('exploration',
+            'Fault injection reaches the message space: random directory layouts with punctuation-laden names x {success, '
+            'worker death, full disk, parent I/O error, 20 classes of invalid input} with cloud_safe=True; config and log of '
+            'the JSON output, config and log of the HDF5 metadata and the log file are scanned for absolute paths that '
+            'exist on the host, by an extractor independent of the repository\'s is_exposed.',
+            'failing runs are produced by injected faults (worker death, disk full, parent I/O error, corrupt inputs) and by '
+            'schedules; directory layouts are the swarm dimension; the scan for absolute paths is a plain oracle. Only '
+            'config and log are scanned (not the taxonomy_tree entry); URLs are not paths.',
+            TECH + ': fault injection to reach error messages, path-exposure scan', '5 C20'),
 }
 
 NOT_BUILT_REASON = 'check not built yet (work in progress; see DESIGN.md section 5 for the planned design)'
